@@ -62,6 +62,7 @@ META = {
     "C12": {
         "budget": {"quick": 35, "thorough": 480},
         "rule": "schema texts: hand-written specials (implicit/explicit schema, schema extensions, renamed roots, redefined built-in directives, built-in scalar extensions), "
+                "EXHAUSTIVE root-name matrix (per operation kind: default-named type absent / object / interface x schema entry none / default name / custom-named object, 729 documents), "
                 "EXHAUSTIVE placements of one definition plus every subset of up to three extensions of the same type in every order for all six type kinds, the type-system part of every corpus file, "
                 "apollo-smith schemas, and model-generated schemas (plain and with random trivia); for each schema built without errors: serialize (default and no_indent), re-parse, "
                 "compare ordered digest (types, fields, arguments, enum values, members, interfaces, directive applications, root operations in order), PartialEq, second serialization byte-identical, validity preserved. "
@@ -70,10 +71,10 @@ META = {
             "schemas that do not build cleanly are outside the property and are skipped (counted)",
             "the ordered digest is computed by the harness through apollo's public Schema API; built-in types and unredefined built-in directives are not part of it",
         ],
-        "floors": {"any": {"source": ["special", "default_named_non_object_root", "extension_interleaving", "corpus", "model_plain", "model_trivia", "smith"],
+        "floors": {"any": {"source": ["special", "default_named_non_object_root", "root_name_matrix", "extension_interleaving", "corpus", "model_plain", "model_trivia", "smith"],
                            "interleaving_kind": ["type", "interface", "enum", "input", "union", "scalar"]}},
-        "exhaustive_subspaces": {"quick": ["all orders of {definition} + every subset of 3 (2 for scalar) extensions of one type, for the six type kinds (256 placements)"],
-                                 "thorough": ["all orders of {definition} + every subset of 3 (2 for scalar) extensions of one type, for the six type kinds (256 placements)"]},
+        "exhaustive_subspaces": {"quick": ["all orders of {definition} + every subset of 3 (2 for scalar) extensions of one type, for the six type kinds (256 placements)", "root-name matrix: 9^3 = 729 documents"],
+                                 "thorough": ["all orders of {definition} + every subset of 3 (2 for scalar) extensions of one type, for the six type kinds (256 placements)", "root-name matrix: 9^3 = 729 documents"]},
         "technique": "runtime monitoring: metamorphic round-trip monitor with an ordered-digest oracle over generated, corpus and exhaustively interleaved schemas",
         "level_text": "Exploration: every schema that builds cleanly among 10^5-10^6 generated/corpus/smith inputs plus an exhaustive small space of definition/extension placements is serialized, re-parsed and compared by an order-sensitive digest.",
         "level_note": "Metamorphic: trusts apollo's parser to read back what the serializer wrote (C08/C05 cover that separately); the digest is the harness's own walk of the public Schema API.",
@@ -137,7 +138,7 @@ META = {
         "budget": {"quick": 55, "thorough": 720},
         "quiet_stderr": True,
         "rule": "texts: chains of five kinds (nested/flat fragment chains, directive-definition chains, input-object chains, nested selections) at 1/4, 1/2, limit-1, limit, limit+1, 2x, 3x each documented limit and random lengths, "
-                "17 hand-written cycles and edge files, every corpus file, token mutants of corpus and model documents, apollo-smith documents (also mutated), hostile text soup; each text runs the whole pipeline on a 2 MiB stack: "
+                "25 hand-written cycles and edge files (fragment, input-object, directive-definition and interface cycles, also behind acyclic prefixes), random reference graphs over 2-6 fragments / input objects / directive definitions / interfaces, every corpus file, token mutants of corpus and model documents, apollo-smith documents (also mutated), hostile text soup; each text runs the whole pipeline on a 2 MiB stack: "
                 "Document::parse, AST serialization, to_schema, to_schema_validate, to_executable(_validate), to_mixed_validate, validate_standalone_executable, check_max_depth, full introspection query through partial_execute, "
                 "and every diagnostic of every list is rendered (Display, Debug/colour path, to_report, to_json, unstable compat JSON, line_column_range) and the list order is checked. "
                 "distinct_nontrivial = distinct texts that produced at least one diagnostic",
@@ -145,7 +146,7 @@ META = {
             "limit probes keep a factor-2 margin on both sides of each documented limit so that off-by-one choices are not judged",
             "documents are capped at 64 KiB and chains at 600 links (validation cost is legitimately quadratic in chain length)",
         ],
-        "floors": {"any": {"source": ["limit_chain", "cycle_or_edge", "corpus", "corpus_mutant", "model_mutant", "smith"],
+        "floors": {"any": {"source": ["limit_chain", "cycle_or_edge", "corpus", "corpus_mutant", "model_mutant", "smith", "random_fragment_graph", "random_definition_graph"],
                            "stage_with_diagnostics_or_output": ["parse", "to_schema_validate", "to_executable_validate", "to_mixed_validate", "standalone", "introspection"]}},
         "crash_class": "compiler",
         "technique": "runtime monitoring: panic/abort monitor over the whole build-validate-serialize-introspect-render pipeline on adversarial generated inputs, plus sortedness and limit-enforcement assertions",
@@ -174,7 +175,7 @@ META = {
     },
     "C32": {
         "budget": {"quick": 50, "thorough": 720},
-        "rule": "byte strings of length 0-16 KiB (random, constant, ramps, sparse, mutants of inputs that produced a new definition kind) with 1-6 definitions per kind: DocumentBuilder::build must not panic, "
+        "rule": "byte strings of length 0-16 KiB (random, constant, ramps, sparse, tiny byte alphabets that make generated names short and colliding, mutants of inputs that produced a new definition kind) with 1-6 definitions per kind or DocumentBuilder's default configuration: DocumentBuilder::build must not panic, "
                 "an Ok document must have no syntax errors and pass to_mixed_validate, and two builds from the same bytes must be identical (cross-process determinism is C22's); "
                 "operations from with_document(parsed schema).operation_definition() for schemas from the model generator (explicit schema definition), the corpus and apollo-smith itself must validate against that schema and generation must not panic. "
                 "Any arbitrary::Error counts as the allowed `input exhausted` outcome. distinct_nontrivial = distinct generated documents plus distinct (schema, operation) pairs",
@@ -183,6 +184,7 @@ META = {
             "validity is judged by apollo-compiler (C14/C17 check that validator against reference models)",
         ],
         "floors": {"any": {"outcome": ["document"], "operation_outcome": ["operation"],
+                           "configuration": ["default", "max-per-kind"],
                            "operation_schema_source": ["model", "corpus", "smith"],
                            "definition_kind_generated": ["type", "interface", "union", "enum", "input", "scalar", "directive", "query"]}},
         "crash_class": "smith",
@@ -282,7 +284,7 @@ META = {
             "indent prefixes are GraphQL WhiteSpace (space, tab) only",
         ],
         "floors": _per_tier({
-            "source": ["exhaustive", "random"],
+            "source": ["exhaustive", "exhaustive_line_shapes", "random"],
             "layout": ["every-slot", "single-slot"],
             "slot": ["description:schema", "description:object", "description:object.field", "description:object.field.argument", "description:enum.value",
                      "description:directive-definition", "description:directive-definition.argument", "description:input-object.field", "description:interface",
@@ -294,10 +296,10 @@ META = {
             "string_feature": ["quote", "triple-quote", "four-quotes", "backslash", "LF", "CR", "CRLF", "C0-control", "U+007F", "U+2028", "leading-whitespace",
                                "trailing-whitespace", "leading-LF", "trailing-LF", "trailing-quote", "trailing-backslash", "common-indent", "whitespace-only-line",
                                "len-70", "len-just-above-70", "len-long", "astral"],
-        }, "exhaustive", ["complete:len<=5"], ["complete:len<=6"]),
+        }, "exhaustive", ["complete:len<=5", "complete:line-shapes<=3"], ["complete:len<=6", "complete:line-shapes<=4"]),
         "exhaustive_subspaces": {
-            "quick": ["all 37449 strings of length <= 5 over {\", \\, LF, CR, space, tab, a, e-acute} x 78 slots x 21 configurations"],
-            "thorough": ["all 299593 strings of length <= 6 over {\", \\, LF, CR, space, tab, a, e-acute} x 78 slots x 21 configurations"],
+            "quick": ["all 37449 strings of length <= 5 over {\", \\, LF, CR, space, tab, a, e-acute} x 78 slots x 21 configurations", "all 1110 strings of 1-3 lines over 10 line shapes (empty, blank, text at several indentations, trailing blanks, a quote)"],
+            "thorough": ["all 299593 strings of length <= 6 over {\", \\, LF, CR, space, tab, a, e-acute} x 78 slots x 21 configurations", "all 11110 strings of 1-4 lines over 10 line shapes (empty, blank, text at several indentations, trailing blanks, a quote)"],
         },
         "technique": "runtime monitoring: identity oracle on strings through serialize -> parse, bounded-exhaustive enumeration plus weighted random Unicode, 78 AST positions x 21 configurations",
         "level_text": "Exploration with a bounded-exhaustive core: every string up to the stated length over the 8 characters that drive quoting decisions is checked in every slot and configuration; beyond that bound, random Unicode strings sample the claim.",
